@@ -8,17 +8,17 @@ checks = {
  "C04": ("exploration", "Same histories with validator switches drawn per run; the verdict is compared with the harness's own constraint evaluator over the configuration the merge model predicts, and (metamorphic) with the verdict for that configuration flattened into one intent on a fresh empty datastore.", "4 C04"),
  "C05": ("exploration", "Histories plus one unconfirmed transaction ended by cancel or by fake-clock expiry; intended store and touched device paths compared with the snapshot from before the transaction.", "4 C05"),
  "C06": ("exploration", "Seeded operation sequences (Set valid/invalid/dry-run/device-error, Confirm/Cancel with matching/stale/unknown ids, waits around the deadline) on the fake clock, judged by a transaction-slot reference model with a liveness probe.", "4 C06"),
- "C08": ("exploration", "C01 histories over the choice profile (top-level, in lists, nested; multi-member cases; prefix-named non-members): per choice instance at most one case on the device and it is the one with the highest-precedence live contribution (choice-aware merge model).", "4 C08"),
- "C09": ("exploration", "Histories with verbatim re-submissions in every input form; the proto, JSON, JSON_IETF and 8 XML renderings of the same tree instance must be empty and both stores unchanged.", "4 C09"),
+ "C08": ("exploration", "C01 histories over the choice profile (top-level, in lists, nested; multi-member cases; prefix-named non-members): per choice instance at most one case on the device and it is the one with the highest-precedence live contribution; the merge-model items about nodes inside a choice member (winning case missing or with a wrong value, e.g. after a takeover by a case of an intent outside the transaction) are judged here as well (choice-aware merge model).", "4 C08"),
+ "C09": ("exploration", "Histories with verbatim re-submissions in every input form; the proto, JSON, JSON_IETF and 8 XML renderings of the same tree instance must be empty and both stores unchanged; in part of the runs the device first reports its whole configuration back in device-native formats (gNMI notifications with prefix and relative paths, typed / JSON / JSON_IETF, or a NETCONF get-config reply) through the real converters and Datastore.Sync, so that the running store holds what the device said.", "4 C09"),
  "C07": ("fault_enumeration", "For a generated history and a chosen transaction, every collaborator call (target.Set, cache Read/ReadCh/GetKeys/Modify, schema GetSchema) is numbered in a counting pass; sampled (call, fault kind) pairs incl. torn writes, lost acks, short reads, device reject/unreachable/lost reply and fail-stop crash + restart over the same badger directory are injected one at a time in fresh worlds (at the wire when the device is the real gnmiTarget), the request is retried and the outcome compared with the fault-free reference run; a cancel leg does the same for TransactionCancel (one collaborator call of the rollback fails once, the cancel is repeated).", "4 C07"),
  "C10": ("exploration", "On every Set of generated histories the direct device asks the same tree instance for proto, JSON, JSON_IETF and the 8 XML documents (change and full views); each is decoded by the harness's own schema-driven decoders, applied to a copy of the prior device state under its protocol's semantics and compared; XML well-formedness, namespace, key-order and operation clauses are checked per document. Wire leg: with the real gnmiTarget (proto/json/json_ietf) the decoded SetRequest must be decodable and have the same effect as the proto view of the same tree (shadow device).", "4 C10"),
  "C11": ("exploration", "C01/C02 histories over the adversarial profile (prefix-related names and key values, separator characters in keys, lists with 2 and 3 keys in non-alphabetical order): every path is followed through request, tree, cache key, device and response and compared structurally by the model oracles; ToPath(ToStrings(p)) and ParsePath(ToXPath(p)) asserted on every path of a run. Claimed for what crosses parties, not for the cross product of pure converters.", "4 C11"),
  "C12": ("exploration", "Single-leaf transactions over one leaf per YANG built-in type x boundary/interior values x input form (typed, string, JSON / JSON_IETF document, JSON / JSON_IETF scalar or array on the leaf's own path); the value at the device, in the intended store and returned by GetData in four encodings must denote the supplied datum (abstract value domain), so must the XML text and JSON documents of the same tree and the real gNMI wire encodings; echo leg: the device reports the value back in a native form (gNMI typed/JSON/JSON_IETF, NETCONF get-config reply) through the real converters and Datastore.Sync, the running store must hold the datum; equal data must not be re-sent. Claimed for the compositions the running system performs.", "4 C12"),
- "C13": ("exploration", "Scripted device notifications (re-sync cycles, on-change updates/deletes, JSON blobs, state leaves) into the real Datastore.Sync with 1/2/16 write workers; every cache write of a sync worker parks in a decorator and the seeded scheduler chooses the completion order; CONFIG/STATE compared with a sequential running-mirror model at quiescence.", "4 C13"),
+ "C13": ("exploration", "Scripted device notifications (re-sync cycles, on-change updates/deletes, JSON blobs, state leaves) into the real Datastore.Sync with 1/2/16 write workers; every cache write of a sync worker parks in a decorator and the seeded scheduler chooses the completion order; CONFIG/STATE compared with a sequential running-mirror model at quiescence; a quarter of the runs are echo cycles (full re-sync of a device state in device-native gNMI / NETCONF formats through the real converters, prune, same mirror oracle).", "4 C13"),
  "C18": ("fault_enumeration", "The real ncTarget.Set is driven around an in-process netconf.Driver with XML change documents captured from real trees; for both commit-datastore settings, the 8 option combinations and every failure point of the driver call sequence (with and without rpc-error warnings) - enumerated completely per document - the recorded call sequence and the fake device's candidate are judged.", "4 C18"),
  "C19": ("exploration", "Server.GetData/Subscribe/WatchDeviations run against fake server streams under the seeded scheduler; Send failures at every index, stalls, slow consumers and client cancellation at every tick; bounded return after the stream ends, no panic, no goroutine left at bubble end (synctest).", "4 C19"),
  "C14": ("exploration", "GetData through Server.GetData with a fake stream for drawn path sets x 4 encodings x MAIN/INTENDED selections after histories with prefix-related keys and names; the answer is compared with the actual store content (direct dump) filtered element-wise; unknown paths must fail without data.", "4 C14"),
- "C15": ("exploration", "After histories and drift written into the CONFIG store the real DeviationMgr runs on the fake clock; the messages of one cycle on a fake WatchDeviations stream are compared as a multiset with a deviation model computed from dumps of both stores.", "4 C15"),
+ "C15": ("exploration", "After histories and drift written into the CONFIG store the real DeviationMgr runs on the fake clock; the messages of one cycle on a fake WatchDeviations stream are compared as a multiset with a deviation model computed from dumps of both stores; part of the drift arrives as typed device echoes through the real Sync (same datum in another representation must not be reported).", "4 C15"),
  "C17": ("exploration", "Arm A (deterministic, two thirds of the runs): every goroutine of RootEntry.Validate parks at yield points compiled into pkg/tree (validation goroutine start, lazy load of a running value or default, child creation, value insertion) and is released one at a time by the seeded scheduler; the verdict under each schedule must equal the sequential verdict, for the transaction pipeline and for trees built without the running store whose validators load values on demand; a schedule that kills the process is minimised through a dumped tape. One third of the runs let the goroutines run free (differential). Thorough tier: the simulator is rebuilt with the Go race detector and any DATA RACE report whose accesses are not both inside the harness is a violation (runtime monitoring arm for the 'no unsynchronised access' half, stated as such).", "4 C17"),
  "C20": ("exploration", "Seeded structural mutation of peer messages delivered to the running simulated system: TransactionSet and GetData requests, device notifications (incl. odd JSON documents on container, list and root paths) and NETCONF get-config replies that are well-formed at the protobuf/XML level but arbitrary above it; oracle: every call returns within 60 simulated seconds, no panic in any goroutine (worker death = violation), no goroutine left at bubble end, and the stores and device are unchanged by rejected requests.", "4 C20"),
  "C16": ("exploration", "Seeded cooperative scheduler over yield points at every transaction-manager lock acquisition and timer event: Confirm/Cancel/expiry/competing Set interleavings on the real Datastore; exactly-once, agreement with client answers, process survival, porcupine linearizability against the slot model; a variant lets the competing Set reuse T1's id.", "4 C16"),
